@@ -26,7 +26,7 @@ Record VA := mkVA {
   va_help : option nat;      (* a record acquired by help_scan *)
   va_node : option nat;      (* a record met while walking thread_list_ (alloc_thread_data) *)
   va_blk : option nat;       (* a guard block taken from the allocator and not yet linked *)
-  va_e : option (option nat);   (* the value of extended_list_ read by thread_hp_storage::extend *)
+  va_e : option (option nat * bool);   (* the value of extended_list_ read by thread_hp_storage::extend; written to next_block_ of the new block? *)
   va_limbo : option (option nat * list nat);   (* the guard blocks of the record being detached that are still to be freed *)
   va_scan : option sstate }.
 
@@ -147,7 +147,8 @@ Section InvA.
     ja_bnd : forall b, List.length (gbs g) <= b -> bown a b = BNone;
     ja_recs : forall r, r < List.length (recs g) -> List.length (r_slots (grec g r)) = HH;
     ja_gbs : forall b, b < List.length (gbs g) -> List.length (gb_slots (ggb g b)) = GBk;
-    ja_e : forall t e, va_e (views a t) = Some e -> exists r, va_tls (views a t) = Some r /\ r_ext (grec g r) = e;
+    ja_e : forall t e f, va_e (views a t) = Some (e, f) -> exists r, va_tls (views a t) = Some r /\ r_ext (grec g r) = e /\
+             (f = true -> exists b, va_blk (views a t) = Some b /\ gb_nextb (ggb g b) = e);
     ja_node : forall t n, va_node (views a t) = Some n -> after g (tlist g) n;
     ja_slot : forall s, slot_get g s = slotv h s;
     ja_scan : forall t, match va_scan (views a t) with
@@ -278,7 +279,8 @@ Section Quiet.
     - intros b Hb. apply J12. lia.
     - intros r Hr. destruct (A4 r) as (_&_&E&_). rewrite E. apply J15. lia.
     - intros b Hb. destruct (A5 b) as (_&E). rewrite E. apply J16. lia.
-    - intros t e Ht. destruct (J17 t e Ht) as (r & X1 & X2). exists r. split; auto. destruct (A4 r) as (_&_&_&E). congruence.
+    - intros t e f Ht. destruct (J17 t e f Ht) as (r & X1 & X2 & X3). exists r. split; auto. split; [destruct (A4 r) as (_&_&_&E); congruence|].
+      intros Hf. destruct (X3 Hf) as (b & Y1 & Y2). exists b. split; auto. destruct (A5 b) as (E&_). congruence.
     - intros t n Ht. rewrite A1. eapply after_piA; eauto.
     - exact Hsl.
     - intros t. specialize (J14 t). destruct (va_scan (views a t)) as [ss|]; rewrite B5; auto.
